@@ -1,6 +1,6 @@
 /-
   C11 (Newick codec) — link with the hypotheses of `Properties/C11.lean`:
-  `NT.SafeNames` (every name and colour a non-empty word over `[A-Za-z0-9_]`)
+  `NT.SafeNames` (every name and colour a non-empty word over `[A-Za-z0-9_.-]`)
   implies `safeTree`, hence the model codec satisfies `NewickLaw`.
 -/
 import SRVerif.Proofs.NewickTop
@@ -12,23 +12,25 @@ open SR.Ser
 
 theorem safeChar_range {c : Char} (h : NT.safeChar c = true) :
     (48 ≤ c.toNat ∧ c.toNat ≤ 57) ∨ (65 ≤ c.toNat ∧ c.toNat ≤ 90) ∨ (97 ≤ c.toNat ∧ c.toNat ≤ 122)
-      ∨ c.toNat = 95 := by
+      ∨ c.toNat = 95 ∨ c.toNat = 46 ∨ c.toNat = 45 := by
   simp only [NT.safeChar, Char.isAlphanum, Char.isAlpha, Char.isUpper, Char.isLower, Char.isDigit,
     Bool.or_eq_true, Bool.and_eq_true, decide_eq_true_eq, beq_iff_eq] at h
-  rcases h with ((h | h) | h) | h
+  rcases h with ((((h | h) | h) | h) | h) | h
   · right; left
     exact ⟨UInt32.le_iff_toNat_le.1 h.1, UInt32.le_iff_toNat_le.1 h.2⟩
   · right; right; left
     exact ⟨UInt32.le_iff_toNat_le.1 h.1, UInt32.le_iff_toNat_le.1 h.2⟩
   · left
     exact ⟨UInt32.le_iff_toNat_le.1 h.1, UInt32.le_iff_toNat_le.1 h.2⟩
-  · right; right; right; subst h; decide
+  · right; right; right; left; subst h; decide
+  · right; right; right; right; left; subst h; decide
+  · right; right; right; right; right; subst h; decide
 
 theorem ne_of_toNat_ne {c d : Char} (h : c.toNat ≠ d.toNat) : c ≠ d := fun e => h (by rw [e])
 
 theorem wordChar_legal {c : Char} (h : NT.safeChar c = true) : illegal c = false := by
   have hr := safeChar_range h
-  have ne : ∀ d : Char, (d.toNat < 48 ∨ (57 < d.toNat ∧ d.toNat < 65) ∨ (90 < d.toNat ∧ d.toNat < 95)
+  have ne : ∀ d : Char, (d.toNat < 45 ∨ d.toNat = 47 ∨ (57 < d.toNat ∧ d.toNat < 65) ∨ (90 < d.toNat ∧ d.toNat < 95)
       ∨ d.toNat = 96 ∨ 122 < d.toNat) → (c == d) = false := by
     intro d hd
     have : c ≠ d := ne_of_toNat_ne (by omega)
